@@ -1,11 +1,607 @@
-#[allow(unused_imports)]
-use swimos_runtime::verif_hooks::*;
-#[allow(unused_imports)]
-use swimos_agent::verif_hooks::*;
-#[allow(unused_imports)]
-use swimos_remote::verif_hooks::*;
-#[allow(unused_imports)]
-use swimos_server_app::verif_hooks::*;
+//! C17 - Inactivity shutdown: unanimous, irrevocable, deadlock-free.
+//!
+//! Leg `seq` (E2): every sequence of {vote_i, rescind_i, drop_i, poll_receiver} up to a depth
+//! bound for 2 and 3 parties on the real `timeout_coord` (through the cfg(swimos_verif)
+//! re-export), against a reference model, checked after every operation.
+//! Leg `loom` (E3): loom over the actual source text of `timeout_coord/mod.rs` (imports
+//! redirected by build.rs): 2-3 voter threads x 1-3 operations, every interleaving and every
+//! permitted reordering within the preemption bound.
+
+mod loom_waker {
+    use loom::sync::Mutex;
+    use std::task::Waker;
+
+    /// Stand-in for `futures::task::AtomicWaker` built on a loom mutex so that loom sees the
+    /// register / wake synchronisation.
+    #[derive(Debug, Default)]
+    pub struct AtomicWaker {
+        inner: Mutex<Option<Waker>>,
+    }
+
+    impl AtomicWaker {
+        pub fn register(&self, waker: &Waker) {
+            *self.inner.lock().unwrap() = Some(waker.clone());
+        }
+        pub fn wake(&self) {
+            let w = self.inner.lock().unwrap().take();
+            if let Some(w) = w {
+                w.wake();
+            }
+        }
+    }
+}
+
+#[allow(dead_code, unused_imports, clippy::all)]
+mod tc {
+    include!(concat!(env!("OUT_DIR"), "/timeout_coord_loom.rs"));
+}
+
+use serde_json::json;
+use std::collections::BTreeMap;
+use std::future::Future;
+use std::pin::Pin;
+use std::sync::atomic::{AtomicU64, Ordering as StdOrdering};
+use std::sync::Mutex;
+use std::task::{Context, Poll};
+use std::time::Instant;
+use swimos_runtime::verif_hooks as rt;
+use vcommon::sched::WakeFlag;
+use vcommon::{Ctx, Leg};
+
+// ------------------------------------------------------------------------------------------
+// Leg seq
+// ------------------------------------------------------------------------------------------
+
+#[derive(Clone, Copy, Debug, PartialEq, Eq, PartialOrd, Ord)]
+enum Op {
+    Vote(u8),
+    Rescind(u8),
+    Drop(u8),
+    Poll,
+}
+
+impl Op {
+    fn name(&self) -> String {
+        match self {
+            Op::Vote(i) => format!("vote{}", i),
+            Op::Rescind(i) => format!("rescind{}", i),
+            Op::Drop(i) => format!("drop{}", i),
+            Op::Poll => "poll".to_string(),
+        }
+    }
+    fn parse(s: &str) -> Option<Op> {
+        if s == "poll" {
+            return Some(Op::Poll);
+        }
+        let (k, i) = s.split_at(s.len() - 1);
+        let i: u8 = i.parse().ok()?;
+        match k {
+            "vote" => Some(Op::Vote(i)),
+            "rescind" => Some(Op::Rescind(i)),
+            "drop" => Some(Op::Drop(i)),
+            _ => None,
+        }
+    }
+}
+
+fn alphabet(n: u8) -> Vec<Op> {
+    let mut a = vec![];
+    for i in 0..n {
+        a.push(Op::Vote(i));
+    }
+    for i in 0..n {
+        a.push(Op::Rescind(i));
+    }
+    for i in 0..n {
+        a.push(Op::Drop(i));
+    }
+    a.push(Op::Poll);
+    a
+}
+
+struct Real {
+    voters: Vec<Option<rt::Voter>>,
+    receiver: rt::Receiver,
+}
+
+fn make(n: u8) -> Real {
+    if n == 2 {
+        let (a, b, r) = rt::downlink_timeout_coordinator();
+        Real { voters: vec![Some(a), Some(b)], receiver: r }
+    } else {
+        let (a, b, c, r) = rt::agent_timeout_coordinator();
+        Real { voters: vec![Some(a), Some(b), Some(c)], receiver: r }
+    }
+}
+
+/// Run one sequence against the real coordinator and the reference model.
+/// Returns Err((law, step index, explanation)) for the first failing step.
+fn run_seq(n: u8, ops: &[Op]) -> Result<(), (&'static str, usize, String)> {
+    let mut real = make(n);
+    let all: u8 = (1u8 << n) - 1;
+    let mut v: u8 = 0; // parties with an outstanding vote (dropped-without-vote count as voted)
+    let mut dropped: u8 = 0;
+    let mut unanimous = false;
+    let flag = WakeFlag::new(false);
+    let waker = flag.waker();
+    let mut registered = false;
+    for (step, op) in ops.iter().enumerate() {
+        match *op {
+            Op::Vote(i) => {
+                let r = real.voters[i as usize].as_ref().unwrap().vote();
+                v |= 1 << i;
+                let became = v == all && !unanimous;
+                if became {
+                    unanimous = true;
+                    if r != rt::VoteResult::Unanimous {
+                        return Err(("vote_completing_unanimity_returns_unanimous", step, "the vote that completed unanimity returned UnanimityPending".into()));
+                    }
+                } else if r == rt::VoteResult::Unanimous && !unanimous {
+                    return Err(("vote_unanimous_implies_all_voted", step, "vote returned Unanimous although not every party has an outstanding vote".into()));
+                }
+            }
+            Op::Rescind(i) => {
+                let r = real.voters[i as usize].as_ref().unwrap().rescind();
+                if unanimous {
+                    if r != rt::VoteResult::Unanimous {
+                        return Err(("unanimity_is_sticky", step, "rescind after unanimity returned UnanimityPending (unanimity undone)".into()));
+                    }
+                } else {
+                    if r != rt::VoteResult::UnanimityPending {
+                        return Err(("rescind_unanimous_implies_all_voted", step, "rescind returned Unanimous although unanimity was never reached".into()));
+                    }
+                    v &= !(1 << i);
+                }
+            }
+            Op::Drop(i) => {
+                real.voters[i as usize] = None;
+                dropped |= 1 << i;
+                if v & (1 << i) == 0 {
+                    // a party that disappears without an outstanding vote counts as having voted
+                    v |= 1 << i;
+                }
+                if v == all {
+                    unanimous = true;
+                }
+            }
+            Op::Poll => {
+                let mut cx = Context::from_waker(&waker);
+                let r = Pin::new(&mut real.receiver).poll(&mut cx);
+                match (r, unanimous) {
+                    (Poll::Ready(()), false) => {
+                        return Err(("receiver_ready_implies_unanimous", step, "receiver completed although not every party has an outstanding vote".into()));
+                    }
+                    (Poll::Pending, true) => {
+                        return Err(("unanimous_implies_receiver_ready", step, "every live party has voted (dropped parties count) but the receiver is pending: waiters would wait forever".into()));
+                    }
+                    (Poll::Pending, false) => {
+                        registered = true;
+                        flag.clear();
+                    }
+                    (Poll::Ready(()), true) => {
+                        registered = false;
+                    }
+                }
+            }
+        }
+        if unanimous && registered && !flag.is_set() {
+            return Err(("unanimity_wakes_receiver", step, "unanimity was reached while the receiver was waiting but its waker was not woken".into()));
+        }
+        let _ = dropped;
+    }
+    // closing observation: receiver readiness must agree with the model
+    let f2 = WakeFlag::new(false);
+    let w2 = f2.waker();
+    let mut cx = Context::from_waker(&w2);
+    let r = Pin::new(&mut real.receiver).poll(&mut cx);
+    match (r, unanimous) {
+        (Poll::Ready(()), false) => Err(("receiver_ready_implies_unanimous", ops.len(), "receiver completed although not every party has an outstanding vote".into())),
+        (Poll::Pending, true) => Err(("unanimous_implies_receiver_ready", ops.len(), "every live party has voted (dropped parties count) but the receiver is pending: waiters would wait forever".into())),
+        _ => Ok(()),
+    }
+}
+
+fn valid_next(n: u8, dropped: u8, op: Op) -> bool {
+    let _ = n;
+    match op {
+        Op::Vote(i) | Op::Rescind(i) | Op::Drop(i) => dropped & (1 << i) == 0,
+        Op::Poll => true,
+    }
+}
+
+struct SeqResult {
+    sequences: u64,
+    steps: u64,
+    nontrivial: u64,
+    // (law) -> minimal failing sequence (by length then lexicographic) and explanation
+    failures: BTreeMap<String, (Vec<Op>, String)>,
+}
+
+/// Enumerate every valid sequence of length exactly `depth` (prefixes were covered by smaller
+/// depths) below the given 2-op prefix.
+fn enumerate(n: u8, depth: usize, alpha: &[Op], prefix: &[Op], res: &mut SeqResult) {
+    let mut seq: Vec<Op> = prefix.to_vec();
+    let mut dropped: u8 = 0;
+    for op in prefix {
+        if !valid_next(n, dropped, *op) {
+            return;
+        }
+        if let Op::Drop(i) = op {
+            dropped |= 1 << i;
+        }
+    }
+    fn rec(n: u8, depth: usize, alpha: &[Op], seq: &mut Vec<Op>, dropped: u8, res: &mut SeqResult) {
+        if seq.len() == depth {
+            res.sequences += 1;
+            res.steps += depth as u64;
+            let has_rescind = seq.iter().any(|o| matches!(o, Op::Rescind(_)));
+            let has_vote = seq.iter().any(|o| matches!(o, Op::Vote(_)));
+            if has_rescind && has_vote {
+                res.nontrivial += 1;
+            }
+            if let Err((law, step, expl)) = run_seq(n, seq) {
+                let failing: Vec<Op> = seq[..(step + 1).min(seq.len())].to_vec();
+                let e = res.failures.entry(law.to_string());
+                match e {
+                    std::collections::btree_map::Entry::Vacant(v) => {
+                        v.insert((failing, expl));
+                    }
+                    std::collections::btree_map::Entry::Occupied(mut o) => {
+                        let cur = &o.get().0;
+                        if (failing.len(), &failing) < (cur.len(), cur) {
+                            o.insert((failing, expl));
+                        }
+                    }
+                }
+            }
+            return;
+        }
+        for &op in alpha {
+            if !valid_next(n, dropped, op) {
+                continue;
+            }
+            let d2 = if let Op::Drop(i) = op { dropped | (1 << i) } else { dropped };
+            seq.push(op);
+            rec(n, depth, alpha, seq, d2, res);
+            seq.pop();
+        }
+    }
+    if seq.len() > depth {
+        return;
+    }
+    rec(n, depth, alpha, &mut seq, dropped, res);
+}
+
+fn seq_leg(ctx: &Ctx, n: u8, max_depth: usize) {
+    let t0 = Instant::now();
+    let alpha = alphabet(n);
+    let mut total = SeqResult { sequences: 0, steps: 0, nontrivial: 0, failures: BTreeMap::new() };
+    for depth in 1..=max_depth {
+        // partition by the first two operations
+        let mut prefixes: Vec<Vec<Op>> = vec![];
+        if depth < 2 {
+            prefixes.push(vec![]);
+        } else {
+            for &a in &alpha {
+                for &b in &alpha {
+                    prefixes.push(vec![a, b]);
+                }
+            }
+        }
+        let parts = vcommon::par_map(&prefixes, vcommon::ncpu(), |_, p| {
+            let mut r = SeqResult { sequences: 0, steps: 0, nontrivial: 0, failures: BTreeMap::new() };
+            enumerate(n, depth, &alpha, p, &mut r);
+            r
+        });
+        for r in parts {
+            total.sequences += r.sequences;
+            total.steps += r.steps;
+            total.nontrivial += r.nontrivial;
+            for (law, (seq, expl)) in r.failures {
+                match total.failures.get(&law) {
+                    Some((cur, _)) if (cur.len(), cur) <= (seq.len(), &seq) => {}
+                    _ => {
+                        total.failures.insert(law, (seq, expl));
+                    }
+                }
+            }
+        }
+    }
+    for (law, (seq, expl)) in &total.failures {
+        let names: Vec<String> = seq.iter().map(|o| o.name()).collect();
+        let sig = format!("parties={} law={} minimal_history={}", n, law, names.join(","));
+        ctx.violation(
+            "seq",
+            &sig,
+            json!({"parties": n, "law": law, "ops": names, "explanation": expl,
+                   "what": format!("{} parties: after [{}]: {}", n, names.join(", "), expl)}),
+        );
+    }
+    ctx.add_leg(Leg {
+        name: format!("seq-{}party", n),
+        engine: "E2-space".into(),
+        states: total.sequences,
+        transitions: total.steps,
+        evaluations: total.sequences,
+        distinct_nontrivial: total.nontrivial,
+        rule: "every valid operation sequence up to the depth bound (tree enumeration, no state merging); non-trivial = contains both a vote and a rescind".into(),
+        samples: vec![json!(["vote0", "rescind0", "vote1", "poll", "vote0"]), json!(["vote0", "rescind0", "drop0", "vote1", "poll"])],
+        exhaustive: true,
+        bounds: json!({"parties": n, "max_depth": max_depth, "alphabet": alpha.iter().map(|o| o.name()).collect::<Vec<_>>()}),
+        wall_s: t0.elapsed().as_secs_f64(),
+    });
+}
+
+// ------------------------------------------------------------------------------------------
+// Leg loom
+// ------------------------------------------------------------------------------------------
+
+#[derive(Clone, Copy, Debug, PartialEq, Eq)]
+enum LOp {
+    Vote,
+    Rescind,
+}
+
+#[derive(Clone, Debug)]
+struct Scenario {
+    name: &'static str,
+    parties: usize,
+    /// per thread operation list
+    threads: Vec<Vec<LOp>>,
+    /// true: threads drop their voters when done and the main thread *waits* for the receiver
+    /// (must terminate); false: voters are kept alive and the final receiver state is compared
+    /// with what the results imply.
+    wait_for_stop: bool,
+}
+
+fn scenarios(thorough: bool) -> Vec<Scenario> {
+    use LOp::*;
+    let mut s = vec![
+        Scenario { name: "2p-vote|vote-keep", parties: 2, threads: vec![vec![Vote], vec![Vote]], wait_for_stop: false },
+        Scenario { name: "2p-vote,rescind|vote-keep", parties: 2, threads: vec![vec![Vote, Rescind], vec![Vote]], wait_for_stop: false },
+        Scenario { name: "2p-vote,rescind,vote|vote-keep", parties: 2, threads: vec![vec![Vote, Rescind, Vote], vec![Vote]], wait_for_stop: false },
+        Scenario { name: "2p-vote,rescind|vote,rescind-keep", parties: 2, threads: vec![vec![Vote, Rescind], vec![Vote, Rescind]], wait_for_stop: false },
+        Scenario { name: "2p-vote|vote-wait", parties: 2, threads: vec![vec![Vote], vec![Vote]], wait_for_stop: true },
+        Scenario { name: "2p-vote,rescind|vote-wait", parties: 2, threads: vec![vec![Vote, Rescind], vec![Vote]], wait_for_stop: true },
+        Scenario { name: "2p-none|vote,rescind-wait", parties: 2, threads: vec![vec![], vec![Vote, Rescind]], wait_for_stop: true },
+        Scenario { name: "3p-vote|vote|vote-keep", parties: 3, threads: vec![vec![Vote], vec![Vote], vec![Vote]], wait_for_stop: false },
+        Scenario { name: "3p-vote,rescind|vote|vote-keep", parties: 3, threads: vec![vec![Vote, Rescind], vec![Vote], vec![Vote]], wait_for_stop: false },
+        Scenario { name: "3p-vote|vote|none-wait", parties: 3, threads: vec![vec![Vote], vec![Vote], vec![]], wait_for_stop: true },
+        Scenario { name: "3p-vote,rescind|vote|vote-wait", parties: 3, threads: vec![vec![Vote, Rescind], vec![Vote], vec![Vote]], wait_for_stop: true },
+    ];
+    if thorough {
+        s.push(Scenario { name: "3p-vote,rescind|vote,rescind|vote-keep", parties: 3, threads: vec![vec![Vote, Rescind], vec![Vote, Rescind], vec![Vote]], wait_for_stop: false });
+        s.push(Scenario { name: "3p-vote,rescind,vote|vote|vote-keep", parties: 3, threads: vec![vec![Vote, Rescind, Vote], vec![Vote], vec![Vote]], wait_for_stop: false });
+        s.push(Scenario { name: "2p-vote,rescind,vote|vote,rescind-keep", parties: 2, threads: vec![vec![Vote, Rescind, Vote], vec![Vote, Rescind]], wait_for_stop: false });
+        s.push(Scenario { name: "3p-vote,rescind|vote,rescind|vote-wait", parties: 3, threads: vec![vec![Vote, Rescind], vec![Vote, Rescind], vec![Vote]], wait_for_stop: true });
+    }
+    s
+}
+
+static LOOM_EXECUTIONS: AtomicU64 = AtomicU64::new(0);
+
+fn make_loom(parties: usize) -> (Vec<tc::Voter>, tc::Receiver) {
+    if parties == 2 {
+        let (v, r) = tc::multi_party_coordinator::<2>();
+        (v.into_iter().collect(), r)
+    } else {
+        let (v, r) = tc::multi_party_coordinator::<3>();
+        (v.into_iter().collect(), r)
+    }
+}
+
+struct NotifyWaker(loom::sync::Arc<loom::sync::Notify>);
+impl std::task::Wake for NotifyWaker {
+    fn wake(self: std::sync::Arc<Self>) {
+        self.0.notify();
+    }
+}
+
+fn run_loom_scenario(sc: &Scenario, max_preemptions: Option<usize>) {
+    let mut b = loom::model::Builder::new();
+    b.preemption_bound = max_preemptions;
+    b.max_branches = 100_000;
+    let sc = sc.clone();
+    b.check(move || {
+        LOOM_EXECUTIONS.fetch_add(1, StdOrdering::Relaxed);
+        let (voters, mut receiver) = make_loom(sc.parties);
+        let unanimous_seen = loom::sync::Arc::new(loom::sync::atomic::AtomicBool::new(false));
+        let mut handles = vec![];
+        for (voter, ops) in voters.into_iter().zip(sc.threads.clone()) {
+            let seen = unanimous_seen.clone();
+            let keep = !sc.wait_for_stop;
+            handles.push(loom::thread::spawn(move || {
+                let mut results = vec![];
+                for (k, op) in ops.iter().enumerate() {
+                    let r = match op {
+                        LOp::Vote => voter.vote(),
+                        LOp::Rescind => voter.rescind(),
+                    };
+                    if r == tc::VoteResult::Unanimous {
+                        seen.store(true, loom::sync::atomic::Ordering::SeqCst);
+                    }
+                    if *op == LOp::Rescind && r == tc::VoteResult::UnanimityPending {
+                        // "told the stop is still pending": it has not begun and must not begin
+                        // before this party votes again; nobody can have been told Unanimous yet.
+                        if seen.load(loom::sync::atomic::Ordering::SeqCst) {
+                            panic!("LAW rescind_pending_means_not_stopping: thread op {} rescind returned UnanimityPending after another party was told Unanimous", k);
+                        }
+                    }
+                    results.push((*op, r));
+                }
+                if keep {
+                    (Some(voter), results)
+                } else {
+                    drop(voter);
+                    (None, results)
+                }
+            }));
+        }
+        if sc.wait_for_stop {
+            // every voter is eventually dropped, so the stop must be observed: a lost wake-up or
+            // a party that disappears without counting as voted shows up as a loom deadlock.
+            let notify = loom::sync::Arc::new(loom::sync::Notify::new());
+            let waker = std::task::Waker::from(std::sync::Arc::new(NotifyWaker(notify.clone())));
+            let mut cx = Context::from_waker(&waker);
+            loop {
+                match Pin::new(&mut receiver).poll(&mut cx) {
+                    Poll::Ready(()) => break,
+                    Poll::Pending => notify.wait(),
+                }
+            }
+            for h in handles {
+                let _ = h.join().unwrap();
+            }
+        } else {
+            let mut all_results = vec![];
+            let mut kept = vec![];
+            for h in handles {
+                let (v, r) = h.join().unwrap();
+                kept.push(v);
+                all_results.push(r);
+            }
+            let waker = std::task::Waker::from(std::sync::Arc::new(NotifyWaker(loom::sync::Arc::new(loom::sync::Notify::new()))));
+            let mut cx = Context::from_waker(&waker);
+            let ready = matches!(Pin::new(&mut receiver).poll(&mut cx), Poll::Ready(()));
+            let any_unanimous = all_results.iter().flatten().any(|(_, r)| *r == tc::VoteResult::Unanimous);
+            let some_withdrawn = all_results.iter().any(|r| matches!(r.last(), Some((LOp::Rescind, tc::VoteResult::UnanimityPending))));
+            let all_final_votes = all_results.iter().all(|r| match r.last() {
+                Some((LOp::Vote, _)) => true,
+                Some((LOp::Rescind, tc::VoteResult::Unanimous)) => true,
+                _ => false,
+            });
+            if any_unanimous && !ready {
+                panic!("LAW told_unanimous_implies_stop: a party was told Unanimous but the receiver is pending; results {:?}", all_results);
+            }
+            if some_withdrawn && ready {
+                panic!("LAW withdrawn_vote_blocks_stop: a party's last action was a rescind answered UnanimityPending but the receiver completed; results {:?}", all_results);
+            }
+            if all_final_votes && !ready {
+                panic!("LAW all_voted_implies_stop: every party ended with an outstanding vote but the receiver is pending; results {:?}", all_results);
+            }
+            let votes_unanimous = all_results.iter().flatten().filter(|(o, r)| *o == LOp::Vote && *r == tc::VoteResult::Unanimous).count();
+            if ready && votes_unanimous != 1 {
+                panic!("LAW exactly_one_vote_completes: receiver completed but {} vote calls returned Unanimous; results {:?}", votes_unanimous, all_results);
+            }
+            drop(kept);
+        }
+    });
+}
+
+fn loom_child(name: &str, thorough: bool) -> ! {
+    let sc = scenarios(true).into_iter().find(|s| s.name == name).unwrap_or_else(|| vcommon::machinery_failure("unknown loom scenario"));
+    let bound = if thorough { std::env::var("VERIF_LOOM_BOUND").ok().and_then(|s| s.parse().ok()).or(Some(5)) } else { Some(3) };
+    run_loom_scenario(&sc, bound);
+    println!("LOOM-EXECUTIONS {}", LOOM_EXECUTIONS.load(StdOrdering::Relaxed));
+    std::process::exit(0)
+}
+
+fn loom_leg(ctx: &Ctx) {
+    let t0 = Instant::now();
+    let thorough = !ctx.quick();
+    let exe = std::env::current_exe().unwrap();
+    let scs = scenarios(thorough);
+    let results = vcommon::par_map(&scs, vcommon::ncpu(), |_, sc| {
+        let out = std::process::Command::new(&exe)
+            .arg("--loom-scenario")
+            .arg(sc.name)
+            .env("VERIF_TIER", if thorough { "thorough" } else { "quick" })
+            .env_remove("LD_PRELOAD")
+            .output();
+        match out {
+            Ok(o) => {
+                let stdout = String::from_utf8_lossy(&o.stdout).to_string();
+                let stderr = String::from_utf8_lossy(&o.stderr).to_string();
+                let execs = stdout.lines().find_map(|l| l.strip_prefix("LOOM-EXECUTIONS ").and_then(|n| n.trim().parse::<u64>().ok()));
+                (o.status.code(), execs, stderr)
+            }
+            Err(e) => (None, None, format!("spawn failed: {}", e)),
+        }
+    });
+    let mut total_exec = 0u64;
+    let mut samples = vec![];
+    for (sc, (code, execs, stderr)) in scs.iter().zip(results) {
+        match (code, execs) {
+            (Some(0), Some(n)) => {
+                total_exec += n;
+                samples.push(json!({"scenario": sc.name, "executions": n}));
+            }
+            _ => {
+                // a loom failure: classify by the LAW marker, or deadlock
+                let law = if let Some(p) = stderr.find("LAW ") {
+                    stderr[p + 4..].split(':').next().unwrap_or("unknown").to_string()
+                } else if stderr.to_lowercase().contains("deadlock") {
+                    "no_deadlock_waiting_for_stop".to_string()
+                } else if stderr.contains("exceeded maximum number of branches") {
+                    "terminates".to_string()
+                } else {
+                    // not a recognisable verdict: machinery
+                    eprintln!("loom scenario {} failed without a verdict:\n{}", sc.name, &stderr[stderr.len().saturating_sub(1500)..]);
+                    vcommon::machinery_failure("loom child crashed");
+                };
+                let tail: String = stderr.lines().rev().take(12).collect::<Vec<_>>().into_iter().rev().collect::<Vec<_>>().join("\n");
+                ctx.violation(
+                    "loom",
+                    &format!("loom scenario={} law={}", sc.name, law),
+                    json!({"scenario": sc.name, "law": law, "explanation": tail,
+                           "what": format!("loom scenario {}: {}", sc.name, law)}),
+                );
+            }
+        }
+    }
+    ctx.add_leg(Leg {
+        name: "loom-timeout_coord".into(),
+        engine: "E3-loom".into(),
+        states: total_exec,
+        transitions: total_exec,
+        evaluations: total_exec,
+        distinct_nontrivial: scs.iter().filter(|s| s.threads.iter().any(|t| t.contains(&LOp::Rescind))).count() as u64,
+        rule: "loom executions (interleavings x permitted reorderings) over the listed scenarios; non-trivial = scenarios containing a concurrent rescind".into(),
+        samples,
+        exhaustive: true,
+        bounds: json!({"preemption_bound": if thorough { "5 (VERIF_LOOM_BOUND overrides)" } else { "3" }, "scenarios": scs.iter().map(|s| s.name).collect::<Vec<_>>()}),
+        wall_s: t0.elapsed().as_secs_f64(),
+    });
+}
+
 fn main() {
-    vcommon::machinery_failure("C17: engine not built yet");
+    let args: Vec<String> = std::env::args().collect();
+    if args.len() >= 3 && args[1] == "--loom-scenario" {
+        let thorough = std::env::var("VERIF_TIER").as_deref() == Ok("thorough");
+        loom_child(&args[2], thorough);
+    }
+    let ctx = Ctx::from_env("C17");
+    if let Some(r) = ctx.replay_request() {
+        let d = &r["detail"];
+        if r["leg"] == "seq" {
+            let n = d["parties"].as_u64().unwrap() as u8;
+            let ops: Vec<Op> = d["ops"].as_array().unwrap().iter().map(|s| Op::parse(s.as_str().unwrap()).unwrap()).collect();
+            if let Err((law, _, expl)) = run_seq(n, &ops) {
+                println!("replay: {} -> {}", law, expl);
+                ctx.violation("seq", r["signature"].as_str().unwrap(), d.clone());
+            }
+        } else {
+            let name = d["scenario"].as_str().unwrap().to_string();
+            let exe = std::env::current_exe().unwrap();
+            let o = std::process::Command::new(exe).arg("--loom-scenario").arg(&name).env("VERIF_TIER", "thorough").output().unwrap();
+            if !o.status.success() {
+                ctx.violation("loom", r["signature"].as_str().unwrap(), d.clone());
+            }
+        }
+        ctx.finish("model_checking", "replay");
+    }
+    let (d2, d3) = if ctx.quick() { (8, 6) } else { (10, 8) };
+    seq_leg(&ctx, 2, d2);
+    seq_leg(&ctx, 3, d3);
+    loom_leg(&ctx);
+    ctx.assume("loom models the C11 memory orderings of the AtomicU8; the AtomicWaker of the futures crate is replaced by a mutex-protected waker cell (its register/wake contract, not its implementation)");
+    ctx.assume("Voter is !Sync: each voter is used by one thread (Cell<bool> stays a plain cell)");
+    ctx.finish(
+        "model_checking",
+        "exhaustive enumeration of all operation sequences up to a depth bound on the real coordinator against a reference model, plus loom exploration of every interleaving of 2-3 voter threads over the real source text",
+    );
+    #[allow(unreachable_code)]
+    {
+        let _ = Mutex::new(());
+    }
 }
